@@ -12,6 +12,7 @@ import (
 	"go/constant"
 	"go/token"
 	"go/types"
+	"golang.org/x/tools/go/ssa/ssautil"
 	"strings"
 
 	"golang.org/x/tools/go/ssa"
@@ -338,9 +339,74 @@ func (c *c13) loadFrom(addr ssa.Value, key string, depth int) {
 		if n == 0 {
 			c.r.Undecided("C13/bytes-flow", key, pos, "no store into content cell")
 		}
+	case *ssa.FieldAddr:
+		// field-based (flow-insensitive) step: the loaded content is one of the values stored into
+		// this struct field anywhere in the repo's packages
+		fld := fieldOfAddr(a)
+		if fld == nil {
+			c.r.Undecided("C13/bytes-flow", key, pos, "field of the content cell not resolved")
+			return
+		}
+		vals, escapes := c.fieldStores(fld)
+		if escapes != "" {
+			c.r.Undecided("C13/bytes-flow", key, pos, "address of field "+fld.Name()+" escapes: "+escapes)
+			return
+		}
+		if len(vals) == 0 {
+			c.r.Undecided("C13/bytes-flow", key, pos, "no store into field "+fld.Name())
+			return
+		}
+		for _, v := range vals {
+			c.flow(v, key, depth+1)
+		}
 	default:
 		c.r.Violation("C13/bytes-flow", key, pos, fmt.Sprintf("content loaded from %T %s", addr, addr.String()))
 	}
+}
+
+func fieldOfAddr(a *ssa.FieldAddr) *types.Var {
+	t := a.X.Type()
+	if p, ok := t.Underlying().(*types.Pointer); ok {
+		t = p.Elem()
+	}
+	st, ok := t.Underlying().(*types.Struct)
+	if !ok || a.Field >= st.NumFields() {
+		return nil
+	}
+	return st.Field(a.Field)
+}
+
+// fieldStores: every value stored into the struct field (by types.Var identity) in the repo's
+// functions; escapes != "" when the field's address is used for anything but stores and loads.
+func (c *c13) fieldStores(fld *types.Var) (vals []ssa.Value, escapes string) {
+	for fn := range ssautil.AllFunctions(c.s.Prog) {
+		pk := fnPkg(fn)
+		if pk == nil || !isRepoPkg(pk.Pkg.Path()) {
+			continue
+		}
+		for _, b := range fn.Blocks {
+			for _, ins := range b.Instrs {
+				fa, ok := ins.(*ssa.FieldAddr)
+				if !ok || fieldOfAddr(fa) != fld {
+					continue
+				}
+				for _, ref := range *fa.Referrers() {
+					switch r := ref.(type) {
+					case *ssa.Store:
+						if r.Addr == fa {
+							vals = append(vals, r.Val)
+						} else {
+							escapes = "stored as a value in " + shortFn(fn)
+						}
+					case *ssa.UnOp, *ssa.DebugRef:
+					default:
+						escapes = fmt.Sprintf("%T in %s", ref, shortFn(fn))
+					}
+				}
+			}
+		}
+	}
+	return vals, escapes
 }
 
 // sameFile: in every function that calls os.ReadFile and the OpenAPI loader,
